@@ -44,9 +44,17 @@ var (
 	Local = time.Local
 )
 
-func Now() Time                                  { return time.Now() }
-func Since(t Time) Duration                      { return time.Since(t) }
-func Until(t Time) Duration                      { return time.Until(t) }
+// Clock, when set by the harness, is what Now, Since and Until read.
+var Clock func() Time
+
+func Now() Time {
+	if Clock != nil {
+		return Clock()
+	}
+	return time.Now()
+}
+func Since(t Time) Duration { return Now().Sub(t) }
+func Until(t Time) Duration { return t.Sub(Now()) }
 func Unix(sec, nsec int64) Time                  { return time.Unix(sec, nsec) }
 func Parse(layout, value string) (Time, error)   { return time.Parse(layout, value) }
 func ParseDuration(s string) (Duration, error)   { return time.ParseDuration(s) }
